@@ -251,14 +251,164 @@ def run_in_impl(c):
         return ['exception', impl.exc_class(e), str(e)[:200]]
 
 
+# ---- IN (subquery) with a SHAPED inner query: filtered, ordered (visible / hidden keys), DISTINCT, LIMIT, grouped,
+# aggregated, read through a FROM-subquery; the inner column has few distinct values, so duplicates sit on both sides of
+# a LIMIT cut.  Two oracles: Model/Subquery.v (items_of (exec inner rows)) and, independently of the model, the inner
+# statement run on its own by the implementation followed by plain Python membership (the property text).
+
+def _q(where, targets, group, aggs, order, vis, distinct, limit):
+    return ('{| q_where := ' + (f'(Some {where})' if where else 'None') + '; q_targets := ' + clist(targets)
+            + '; q_group := ' + ('None' if group is None else 'Some ' + clist([f'{i}%nat' for i in group]))
+            + '; q_aggs := ' + clist(aggs) + '; q_having := None'
+            + '; q_order := ' + ('None' if not order else '(Some ' + clist([f'({i}%nat, {cbool(d)})' for i, d in order]) + ')')
+            + '; q_vis := ' + clist([f'{i}%nat' for i in vis]) + '; q_distinct := ' + cbool(distinct)
+            + '; q_limit := ' + core.copt(limit, core.cZ) + ' |}')
+
+
+def gen_in_shaped_case(rng):
+    t = rng.choice([T_INT, T_INT, T_STR, T_DATE, T_DEC])
+    cols = [('a', t), ('b', rng.choice(exprgen.ALL_TYPES))]
+    ucols = [('k', t), ('w', T_INT), ('g', T_STR)]
+    pool = rng.sample(values.POOLS[PY[t]], rng.choice([2, 3, 3, 4]))
+    if t == T_DEC:   # 1 / 1.0 / 1.50 ... : keep values that differ numerically (DISTINCT and == agree on them)
+        pool = list({v: None for v in pool if not (v == 0 and v.is_signed())})
+        pool = [v for i, v in enumerate(pool) if all(v != x for x in pool[:i])]
+    nu = rng.choice([0, 1, 3, 4, 5, 6, 8, 9])
+    urows = [(None if rng.random() < 0.12 else rng.choice(pool), rng.choice([0, 1, 2, 3, 5]), rng.choice(['p', 'q', None]))
+             for _ in range(nu)]
+    others = [v for v in values.POOLS[PY[t]] if all(v != x for x in pool)][:2]
+    rows = [(v, values.gen_value(rng, PY[cols[1][1]], 0.2)) for v in pool + others + [None]]
+    rng.shuffle(rows)
+    gu = exprgen.Gen(rng, ucols, 1)
+    where = gu.expr(T_BOOL) if rng.random() < 0.3 else None
+    shape = rng.choice(['plain', 'plain', 'plain', 'group-key', 'group-agg', 'all-agg'])
+    distinct = rng.random() < 0.25
+    limit = rng.choice([1, 2, 2, 3, 4, 0]) if rng.random() < 0.75 else None
+    aggs, group = [], None
+    order_sql, order = [], []
+    if shape == 'plain':
+        sel, targets = 'k', ['(ECol 0%nat)']
+        r = rng.random()
+        if r < 0.3:                                   # hidden column key(s)
+            d1, d2 = rng.random() < 0.5, rng.random() < 0.5
+            targets.append('(ECol 1%nat)')
+            order_sql, order = ['w' + (' DESC' if d1 else '')], [(1, d1)]
+            if rng.random() < 0.4:
+                targets.append('(ECol 2%nat)')
+                order_sql.append('g' + (' DESC' if d2 else ''))
+                order.append((2, d2))
+        elif r < 0.45:                                # hidden expression key
+            e = gu.expr(T_INT)
+            d1 = rng.random() < 0.5
+            targets.append(e.coq)
+            order_sql, order = [(f'({e.text})' if e.text[:1].isdigit() else e.text) + (' DESC' if d1 else '')], [(1, d1)]
+        elif r < 0.7:                                 # the visible column, by name or position
+            d1 = rng.random() < 0.5
+            order_sql, order = [rng.choice(['k', '1']) + (' DESC' if d1 else '')], [(0, d1)]
+    elif shape == 'group-key':
+        sel, targets, group = 'k', ['(ECol 0%nat)'], [0]
+        gsql = ['k']
+        if rng.random() < 0.4:                        # a second, hidden grouping key: k repeats in the output
+            targets.append('(ECol 2%nat)')
+            group.append(1)
+            gsql.append('g')
+        r = rng.random()
+        d1 = rng.random() < 0.5
+        if r < 0.35:
+            aggs.append('{| afun := ACountStar; aarg := (EConst VNull) |}')
+            targets.append('(EAgg 0%nat)')
+            order_sql, order = ['count(*)' + (' DESC' if d1 else '')], [(len(targets) - 1, d1)]
+        elif r < 0.7:
+            order_sql, order = ['k' + (' DESC' if d1 else '')], [(0, d1)]
+    elif shape == 'group-agg':
+        fn, tag = rng.choice([('max', 'AMax'), ('min', 'AMin'), ('first', 'AFirst'), ('last', 'ALast')])
+        sel = f'{fn}(k)'
+        aggs.append('{| afun := ' + tag + '; aarg := (ECol 0%nat) |}')
+        key, ki = rng.choice([('w', 1), ('g', 2)])
+        targets, group, gsql = ['(EAgg 0%nat)', f'(ECol {ki}%nat)'], [1], [key]
+        if rng.random() < 0.6:
+            d1 = rng.random() < 0.5
+            order_sql, order = [key + (' DESC' if d1 else '')], [(1, d1)]
+    else:
+        fn, tag = rng.choice([('max', 'AMax'), ('min', 'AMin'), ('first', 'AFirst'), ('last', 'ALast')])
+        sel = f'{fn}(k)'
+        aggs.append('{| afun := ' + tag + '; aarg := (ECol 0%nat) |}')
+        targets, group, gsql = ['(EAgg 0%nat)'], [], None
+    via_from = rng.random() < 0.2
+    inner_sql = ('SELECT ' + ('DISTINCT ' if distinct else '') + sel + rng.choice(['', ' AS v'])
+                 + ' FROM ' + ('(SELECT k, w, g FROM #u)' if via_from else '#u')
+                 + (f' WHERE {where.text}' if where else ''))
+    if shape in ('group-key', 'group-agg'):
+        inner_sql += ' GROUP BY ' + ', '.join(gsql)
+    if order_sql:
+        inner_sql += ' ORDER BY ' + ', '.join(order_sql)
+    if limit is not None:
+        inner_sql += f' LIMIT {limit}'
+    inner_q = _q(where.coq if where else None, targets, group, aggs, order, [0], distinct, limit)
+    items = f'(items_of (exec {inner_q} {values.rows_to_coq(urows)}))'
+    form = rng.choice(['targets', 'where-in', 'where-not-in'])
+    pin, pnot = f'(EIn false (ECol 0%nat) {items})', f'(EIn true (ECol 0%nat) {items})'
+    if form == 'targets':
+        sql = f'SELECT a, a IN ({inner_sql}) AS i, a NOT IN ({inner_sql}) AS n FROM #t'
+        q = _q(None, ['(ECol 0%nat)', pin, pnot], None, [], None, [0, 1, 2], False, None)
+    else:
+        neg = form == 'where-not-in'
+        sql = f'SELECT a, b FROM #t WHERE a {"NOT IN" if neg else "IN"} ({inner_sql})'
+        q = _q(pnot if neg else pin, ['(ECol 0%nat)', '(ECol 1%nat)'], None, [], None, [0, 1], False, None)
+    return {'cols': cols, 'ucols': ucols, 'rows': rows, 'urows': urows, 'sql': sql, 'inner_sql': inner_sql, 'form': form,
+            'coq': f'exec_out {q} {values.rows_to_coq(rows)}', 'shape': shape, 'distinct': distinct, 'limit': limit,
+            'ordered': bool(order), 'hidden_order': any(i != 0 for i, _ in order), 'via_from': via_from,
+            'filtered': where is not None}
+
+
+def run_in_shaped_impl(c):
+    """-> {'nested': result of the nested statement, 'inner': the inner statement on its own (fresh connection),
+           'member': what plain membership in the inner result gives for the nested statement}"""
+    def conn():
+        t = impl.make_table('t', [(n, PY[ty]) for n, ty in c['cols']], c['rows'])
+        u = impl.make_table('u', [(n, PY[ty]) for n, ty in c['ucols']], c['urows'])
+        return impl.connection({'t': t, 'u': u})
+    out = {}
+    try:
+        out['nested'] = [0, values.canon_rows(conn().execute(c['sql']).fetchall())]
+    except Exception as e:  # noqa: BLE001
+        out['nested'] = ['exception', impl.exc_class(e), str(e)[:200]]
+    try:
+        vals = [r[0] for r in conn().execute(c['inner_sql']).fetchall()]
+        out['inner'] = [0, values.canon_rows([(v,) for v in vals])]
+
+        def member(x, neg):
+            if x is None or not vals:
+                return None
+            return (x in vals) != neg
+        if c['form'] == 'targets':
+            exp = [(a, member(a, False), member(a, True)) for a, _ in c['rows']]
+        else:
+            exp = [r for r in c['rows'] if member(r[0], c['form'] == 'where-not-in')]
+        out['member'] = [0, values.canon_rows(exp)]
+    except Exception as e:  # noqa: BLE001
+        out['inner'] = out['member'] = ['exception', impl.exc_class(e), str(e)[:200]]
+    return out
+
+
+def dup_in_cut(c, inner_rows):
+    """Does the LIMIT of the inner query keep a value twice (what a forced DISTINCT would change)?"""
+    return c['limit'] is not None and not c['distinct'] and len(inner_rows) != len({repr(r) for r in inner_rows})
+
+
 def run(tier, rng):
     n = 900 if tier == 'quick' else 12000
     n_in = 500 if tier == 'quick' else 6000
     cases = [gen_case(rng) for _ in range(n)]
     incases = [gen_in_case(rng) for _ in range(n_in)]
+    shaped = [gen_in_shaped_case(rng) for _ in range(400 if tier == 'quick' else 8000)]
     impl_out = core.pmap(run_impl, cases)
     in_impl = core.pmap(run_in_impl, incases)
-    models = core.coq_eval('c08', IMPORTS, [model_expr(c) for c in cases] + [c['coq'] for c in incases], shard=120)
+    shaped_impl = core.pmap(run_in_shaped_impl, shaped)
+    models = core.coq_eval('c08', IMPORTS, [model_expr(c) for c in cases] + [c['coq'] for c in incases]
+                           + [c['coq'] for c in shaped], shard=120)
+    shaped_models = models[len(cases) + len(incases):]
+    models = models[:len(cases) + len(incases)]
     violations, seen = [], set()
     hist = {'depth': {}, 'kinds': {}, 'star': 0, 'in_where': 0, 'not_in': 0, 'empty_inner': 0, 'impl_errors': 0}
     nontrivial = 0
@@ -297,6 +447,39 @@ def run(tier, rng):
             violations.append(core.Violation('in-subquery', f'{c["sql"]} with #t={c["rows"]} #u={c["urows"]}: implementation {io} '
                                              f'but membership semantics (model) give {m}',
                                              {'kind': 'in', 'case': {k: v for k, v in c.items()}, 'impl': io, 'model': m}, signature=sig))
+    shist = {'shape': {}, 'form': {}, 'limit': 0, 'distinct': 0, 'ordered': 0, 'hidden_order_key': 0, 'filtered': 0,
+             'via_from_subquery': 0, 'empty_inner_result': 0, 'duplicate_value_kept_by_limit': 0, 'limit_cuts_rows': 0,
+             'outer_value_only_beyond_the_cut': 0, 'impl_errors': 0}
+    nshaped_bad = 0
+    for c, io, m in zip(shaped, shaped_impl, shaped_models):
+        shist['shape'][c['shape']] = shist['shape'].get(c['shape'], 0) + 1
+        shist['form'][c['form']] = shist['form'].get(c['form'], 0) + 1
+        for k, f in (('limit', c['limit'] is not None), ('distinct', c['distinct']), ('ordered', c['ordered']),
+                     ('hidden_order_key', c['hidden_order']), ('filtered', c['filtered']), ('via_from_subquery', c['via_from'])):
+            shist[k] += bool(f)
+        if io['nested'][0] != 0:
+            shist['impl_errors'] += 1
+        if io['inner'][0] == 0:
+            shist['empty_inner_result'] += not io['inner'][1]
+            shist['duplicate_value_kept_by_limit'] += dup_in_cut(c, io['inner'][1])
+            if c['limit'] is not None and len(io['inner'][1]) == c['limit'] and len(c['urows']) > c['limit']:
+                shist['limit_cuts_rows'] += 1
+                kept = {repr(r[0]) for r in io['inner'][1]}
+                allk = {repr(values.canon(r[0])) for r in c['urows']}
+                shist['outer_value_only_beyond_the_cut'] += bool(allk - kept)
+        bad = None
+        if io['nested'] != io['member']:
+            bad = (f'nested statement gives {io["nested"]} but the subquery on its own returns {io["inner"]}, '
+                   f'membership in which gives {io["member"]}')
+        elif io['nested'] != m:
+            bad = f'implementation {io["nested"]} but membership semantics (model) give {m}'
+        if bad:
+            nshaped_bad += 1
+            if nshaped_bad <= 2:
+                sig = 'in-shaped:' + c['sql'] + ' t=' + repr(c['rows']) + ' u=' + repr(c['urows'])
+                violations.append(core.Violation(
+                    'in-subquery-shaped', f'{c["sql"]} with #t={c["rows"]} #u={c["urows"]}: {bad}',
+                    {'kind': 'in-shaped', 'case': c, 'impl': io, 'model': m}, signature=sig))
     for fn, kind in ((same_type_columns, 'subquery-column-identity'), (nested_in_three_tables, 'nested-in'), (inner_order_kept, 'inner-order'), (look_alike_in_subqueries, 'look-alike-in')):
         nchk, cbad = fn()
         for sql, got, want in cbad[:2]:
@@ -320,16 +503,29 @@ def run(tier, rng):
             violations.append(core.Violation('star-duplicate-names', f'SELECT * FROM ({inner}) raised {e!r}',
                                              {'kind': 'star-dup', 'inner': inner}, signature='star-duplicate-names:' + inner))
     cov = {
-        'evaluations': len(cases) + len(incases) + 3, 'distinct_nontrivial': nontrivial,
+        'evaluations': len(cases) + len(incases) + len(shaped) + 3, 'distinct_nontrivial': nontrivial,
+        'in_shaped_subqueries': len(shaped), 'in_shaped_histograms': shist,
+        'in_shaped_samples': [c['sql'] for c in shaped[:4]],
         'rule': 'random nestings (depth 1-3) of plain and aggregate queries (WHERE, GROUP BY with hidden keys, HAVING, ORDER BY with hidden '
                 'keys, DISTINCT, LIMIT, aliased outputs), outer queries over the inner output columns, optionally wrapped in SELECT * FROM '
                 '(...): nested vs level-by-level materialised vs model; x [NOT] IN (SELECT k FROM #u [WHERE ...]) in targets or WHERE over a '
-                'different table with NULLs and empty inner results vs model; non-trivial = nested case with source rows and a non-empty result',
+                'different table with NULLs and empty inner results vs model; x [NOT] IN (shaped subquery: WHERE, ORDER BY visible / hidden column / '
+                'hidden expression keys, DISTINCT, LIMIT, GROUP BY with hidden keys, aggregates, read through a FROM-subquery) over few '
+                'distinct inner values (duplicates on both sides of the LIMIT cut), in targets (IN and NOT IN side by side) and WHERE, vs model '
+                'and vs plain Python membership in the inner statement run on its own; non-trivial = nested case with source rows and a '
+                'non-empty result',
         'samples': [nested_sql(c) for c in cases[:3]] + [c['sql'] for c in incases[:2]],
-        'traces_validated_against_impl': len(cases) + len(incases), 'histograms': hist,
+        'traces_validated_against_impl': len(cases) + len(incases) + len(shaped), 'histograms': hist,
     }
     return {'coverage': cov, 'violations': violations}
 
 
 def replay(rec):
+    if rec.get('kind') == 'in-shaped':
+        c = dict(rec['case'])
+        for rk, ck in (('rows', 'cols'), ('urows', 'ucols')):
+            c[rk] = [tuple(c01._unjson(v, t) for v, (_, t) in zip(r, c[ck])) for r in c[rk]]
+        io = run_in_shaped_impl(c)
+        m = core.coq_eval('c08r', IMPORTS, [c['coq']])[0]
+        return io['nested'] == io['member'] and io['nested'] == m
     return True
